@@ -1,0 +1,81 @@
+//go:build verif
+
+// Read-only accessors for the PQ and IVFPQ indexes used by the verification
+// harness in /verif (build tag "verif"). Nothing here is compiled into normal
+// builds; every accessor returns copies.
+
+package comet
+
+// VerifPQParams returns the derived parameters of a PQ index.
+func (idx *PQIndex) VerifPQParams() (M, Nbits, Ksub, dsub int, trained bool) {
+	idx.mu.RLock()
+	defer idx.mu.RUnlock()
+	return idx.M, idx.Nbits, idx.Ksub, idx.dsub, idx.trained
+}
+
+// VerifPQCodebooks returns a copy of the M flat codebooks
+// (codebooks[m][k*dsub:(k+1)*dsub] is codeword k of subspace m).
+func (idx *PQIndex) VerifPQCodebooks() [][]float32 {
+	idx.mu.RLock()
+	defer idx.mu.RUnlock()
+	return verifCopy2(idx.codebooks)
+}
+
+// VerifPQState returns the stored ids and codes in slice order and the
+// soft-deleted ids.
+func (idx *PQIndex) VerifPQState() (ids []uint32, codes [][]uint8, deleted []uint32) {
+	idx.mu.RLock()
+	defer idx.mu.RUnlock()
+	for i, v := range idx.vectorNodes {
+		ids = append(ids, v.ID())
+		codes = append(codes, append([]uint8(nil), idx.codes[i]...))
+	}
+	deleted = idx.deletedNodes.ToArray()
+	return
+}
+
+// VerifIVFPQParams returns the derived parameters of an IVFPQ index.
+func (idx *IVFPQIndex) VerifIVFPQParams() (nlist, M, Nbits, Ksub, dsub int, trained bool) {
+	idx.mu.RLock()
+	defer idx.mu.RUnlock()
+	return idx.nlist, idx.M, idx.Nbits, idx.Ksub, idx.dsub, idx.trained
+}
+
+// VerifIVFPQCentroids returns a copy of the coarse centroids.
+func (idx *IVFPQIndex) VerifIVFPQCentroids() [][]float32 {
+	idx.mu.RLock()
+	defer idx.mu.RUnlock()
+	return verifCopy2(idx.centroids)
+}
+
+// VerifIVFPQCodebooks returns a copy of the M flat residual codebooks.
+func (idx *IVFPQIndex) VerifIVFPQCodebooks() [][]float32 {
+	idx.mu.RLock()
+	defer idx.mu.RUnlock()
+	return verifCopy2(idx.codebooks)
+}
+
+// VerifIVFPQState returns, per inverted list and in slice order, the stored ids and
+// codes, and the soft-deleted ids.
+func (idx *IVFPQIndex) VerifIVFPQState() (ids [][]uint32, codes [][][]uint8, deleted []uint32) {
+	idx.mu.RLock()
+	defer idx.mu.RUnlock()
+	ids = make([][]uint32, len(idx.lists))
+	codes = make([][][]uint8, len(idx.lists))
+	for l, list := range idx.lists {
+		for _, cv := range list {
+			ids[l] = append(ids[l], cv.Node.ID())
+			codes[l] = append(codes[l], append([]uint8(nil), cv.Code...))
+		}
+	}
+	deleted = idx.deletedNodes.ToArray()
+	return
+}
+
+func verifCopy2(in [][]float32) [][]float32 {
+	out := make([][]float32, len(in))
+	for i, v := range in {
+		out[i] = append([]float32(nil), v...)
+	}
+	return out
+}
